@@ -235,10 +235,16 @@ func init() {
 			return in.zero(call.Signature().Results().At(0).Type())
 		}
 		cell := new(Value)
-		*cell = copyVal(iv.V)
 		t := RType{T: iv.T}
 		if ss, ok := iv.V.(*SymStructVal); ok {
 			t.Sym = ss.Desc
+			if ss.Ptr != nil {
+				*cell = ss.Ptr
+			} else {
+				*cell = copyVal(ss.Fields)
+			}
+		} else {
+			*cell = copyVal(iv.V)
 		}
 		return in.mkRValue(t, cell, rfValid)
 	})
